@@ -203,10 +203,10 @@ static void w_apply(mc_op_t o)
         if (expect == E_OK) { for (k = (int)size; k < (int)cnt; k++) M[0].c[k] = 0; M[0].n = cnt; M[0].c[cnt] = 0; }
         break;
     case O_RESERVE: {
-        const CH *d0 = SF(data)(&S[0]); size_t c0 = S[0].v.cap, n0 = S[0].v.count;
+        const CH *d0 = SF(data)(&S[0]); size_t c0 = SF(capacity)(&S[0]), n0 = SF(size)(&S[0]);
         cnt = cntval(OB(o), size, 0);
         SHIM_CALL(ab, SF(reserve)(&S[0], cnt));
-        if (!ab && !satisfiable(cnt)) MC_CHECK(PC10, SF(data)(&S[0]) == d0 && S[0].v.cap == c0 && S[0].v.count == n0, "reserve(%s) cannot be satisfied and must change nothing, but data/capacity changed", cntname[OB(o)]);
+        if (!ab && !satisfiable(cnt)) MC_CHECK(PC10, SF(data)(&S[0]) == d0 && SF(capacity)(&S[0]) == c0 && SF(size)(&S[0]) == n0, "reserve(%s) cannot be satisfied and must change nothing, but data/capacity changed", cntname[OB(o)]);
         break;
     }
     case O_SWAP: {
@@ -256,7 +256,7 @@ static void w_audit(void)
         if (p == NULL) return;
         if (n > 0) {
             shim_blk *b = shim_find(p);
-            MC_CHECK(PC10, SF(data)(s) != NULL && b != NULL && p == (const CH *)b->p && b->sz >= (n + 1) * sizeof(CH), "string %d: str() does not point at a live allocation holding size+1 characters", k);
+            MC_CHECK(PC10, SF(data)(s) != NULL && b != NULL && (size_t)((const char *)p - (const char *)b->p) + (n + 1) * sizeof(CH) <= b->sz, "string %d: str() does not point into a live allocation with room for size+1 characters", k);       /* where in its block the storage starts is the library's business */
             if (mc_branch_dead) return;
         }   /* an empty string may be represented by any readable NUL (the library's static nul or its own buffer) */
         for (i = 0; i < (int)n; i++) MC_CHECK(PC10, p[i] == M[k].c[i], "string %d: character %d is %d, reference has %d", k, i, (int)p[i], (int)M[k].c[i]);
@@ -316,13 +316,14 @@ static void w_canon(void)
 {
     int k; size_t i;
     for (k = 0; k < 2; k++) {
-        KB_C('S'); KB_C(S[k].v.elem.base ? 'b' : '0'); KB_U(S[k].v.count); KB_C('/'); KB_U(S[k].v.cap); KB_C('e'); KB_U(S[k].v.elem.size); KB_C(':');
+        KB_C('S'); KB_MEM(&S[k], sizeof S[k], NULL);      /* every byte of the object, members unnamed: the string is otherwise observed through its public functions only */
+        KB_C('|'); KB_U(SF(size)(&S[k])); KB_C('/'); KB_U(SF(capacity)(&S[k])); KB_C(':');
         for (i = 0; i < M[k].n && i < MAXL + 1; i++) KB_C(M[k].c[i] == 0 ? '0' : (char)M[k].c[i]);
         KB_C('|');
         /* the implementation's own characters (bounded by its allocation), so that the key covers everything the audit reads */
-        if (S[k].v.elem.base) {
-            shim_blk *b = shim_find(S[k].v.elem.base); const CH *p = S[k].v.elem.base;
-            for (i = 0; b && i < S[k].v.count && i < MAXL + 2 && (i + 1) * sizeof(CH) <= b->sz; i++) { if (p[i] == 0) KB_C('0'); else if (p[i] == 'a' || p[i] == 'b') KB_C((char)p[i]); else { KB_C('#'); KB_U((unsigned long)p[i] & 0xffff); } }
+        if (SF(data)(&S[k])) {
+            const CH *p = SF(data)(&S[k]); shim_blk *b = shim_find(p); size_t off_ = b ? (size_t)((const char *)p - (const char *)b->p) : 0;
+            for (i = 0; b && i < SF(size)(&S[k]) + 1 && i < MAXL + 2 && off_ + (i + 1) * sizeof(CH) <= b->sz; i++) { if (p[i] == 0) KB_C('0'); else if (p[i] == 'a' || p[i] == 'b') KB_C((char)p[i]); else { KB_C('#'); KB_U((unsigned long)p[i] & 0xffff); } }
         }
         KB_C(';');
     }
